@@ -174,7 +174,7 @@ SetLagsLeads(o, lg, ld)    == [Op0 EXCEPT !.op = "SetLagsLeads", !.o = o, !.lg =
 Solve(o)                   == [Op0 EXCEPT !.op = "Solve", !.o = o]
 
 (* near-miss attribute names and the variable each is meant to be (closest under any edit metric) *)
-NearOf(n) == CASE n = "Ff" -> "F" [] n = "Yy" -> "Y" [] n = "Gg" -> "G" [] OTHER -> ""
+NearOf(n) == CASE n = "Ff" -> "F" [] n = "Yy" -> "Y" [] n = "Gg" -> "G" [] n = "Nn" -> "N" [] OTHER -> ""
 Candidates(ob) == IF ob.class = "container" THEN RangeOf(ob.index) ELSE RangeOf(ob.names)   \* containers.py:226-227, interfaces.py:201-202
 
 ----------------------------------------------------------------------------
